@@ -453,6 +453,7 @@ static void walk_kind(vf::Graph &g, const char *tag, const std::set<long> &skip)
 
 int main(int argc, char **argv) {
     vf::install_handlers();
+    vf::ledger_trace("h_seq", false);
     if (argc < 2) return 2;
     std::string mode = argv[1];
     if (mode == "walk" && argc >= 5) {
